@@ -931,7 +931,19 @@ func (tree *MutableTree) DeleteVersionsFrom(fromVersion int64) error {
 		return err
 	}
 
-	return tree.ndb.Commit()
+	if err := tree.ndb.Commit(); err != nil {
+		return err
+	}
+
+	if !tree.skipFastStorageUpgrade {
+		// the fast index described a version that no longer exists: without a rebuild the
+		// next SaveVersion would label the stale index with the new latest version
+		if _, err := tree.enableFastStorageAndCommitIfNotEnabled(); err != nil {
+			return err
+		}
+	}
+
+	return nil
 }
 
 // Rotate right and return the new node and orphan.
